@@ -1114,38 +1114,15 @@ theorem putValue_obj_spec (σ : FnM.St) (j : Nat) (outer : Option Nat) (o : Nat)
   | throw t σ' => rfl
   | fuel => rfl
 
-/-- **PutValue on an unresolvable reference** (§8.7.2 step 3.b, non-strict): a property of the global object is
-    created -/
+/-- **PutValue on an unresolvable reference** (§8.7.2 step 3.b, non-strict): [[Put]] on the global object –
+    whether or not the global object has got the property since the reference was made -/
 theorem putValue_unresolvable_spec (σ : FnM.St) (x : String) (v : Fn.V) (hx : x ≠ "") (hv : Visible σ x)
     (hw : WritableWF σ) (hd : ProtoDesc σ) (g : FnM.Obj) (hg : σ.obj? FnM.gObj = some g)
-    (hna : ∀ ipn st, g.val ≠ .arguments ipn st)
-    (hno : getPropertyP σ (σ.heap.length + 1) FnM.gObj x = none) :
+    (hna : ∀ ipn st, g.val ≠ .arguments ipn st) :
     absR (FnM.rtPutValue (.prop none x) v σ) = Fn.putIdent (absSt σ) none x v := by
-  have ⟨hh, hstr⟩ := hv FnM.gObj g hg
-  have hm : mapGetP σ g x = none := mapGetP_none_of_not_args σ g x hna
-  have hown : ownP σ FnM.gObj x = Fn.lookupA x g.props := ownP_of_unmapped σ FnM.gObj g x hg hstr hm
-  have hl : Fn.lookupA x g.props = none := by
-    rw [← hown]
-    rw [getPropertyP] at hno
-    cases ho : ownP σ FnM.gObj x with
-    | none => rfl
-    | some p => rw [ho] at hno; simp at hno
-  have hcp : Fn.canPut (absSt σ) (σ.heap.length + 1) FnM.gObj x = true := by
-    rw [canPut_chain σ x hv hw, hno]
-  simp only [FnM.rtPutValue, FnM.refPutValue, bind_run, pure_run, Fn.putIdent, Fn.putProp, absSt_obj, absSt_heap_length]
   have hne : (x != "") = true := by simp [hx]
-  have hg' : σ.obj? Fn.gObj = some g := hg
-  simp only [hne, if_true, bind_run, FnM.defineProperty, hg', Option.map_some]
-  rw [defineOwnProperty_nonargs σ FnM.gObj g x _ false hg hna, odop_new σ FnM.gObj g x (FnM.p111 v) false hg hl]
-  have hcp' : Fn.canPut (absSt σ) (σ.heap.length + 1) Fn.gObj x = true := hcp
-  simp only [pure_run, absR, absSt_setObj, hcp', Bool.not_true, Bool.false_eq_true, if_false, absObj_lookup g x hh, hl, Option.map_none]
-  rw [absObj_append g x (FnM.p111 v) hh rfl]
-  have hk : ∀ m e, (absObj g).kind ≠ .args m e := by
-    intro m e hk
-    cases hval : g.val <;> simp [absObj, absKind, hval] at hk
-    exact hna _ _ hval
-  rw [mappedAssign_nonargs (absSt σ) (absObj g).kind x v hk]
-  simp [FnM.p111, FnM.gObj, Fn.gObj]
+  simp only [FnM.rtPutValue, FnM.refPutValue, bind_run, pure_run, Fn.putIdent, hne, if_true]
+  exact putProp_spec σ FnM.gObj x v hv hw hd (by intro o ho; rw [hg] at ho; cases ho; exact hna)
 
 /-! ## [[Delete]]; [[Put]] and [[Delete]] through the arguments object's parameter map -/
 
@@ -2714,7 +2691,7 @@ theorem protoWalk_spec (σ : FnM.St) (p : Nat) : ∀ (n x : Nat),
 
 /-! ## a first evaluator simulation: read-only identifier expressions -/
 
-/-- the read-only, allocation-free, call-free fragment: literals, `this`, identifiers, + - < === !, typeof, (0, e), log(e) -/
+/-- the read-only, allocation-free, call-free fragment: literals, `this`, identifiers, + - < === !, typeof, (0, e), log(e), ?: -/
 def ro : Fn.FE → Bool
   | .lit _ => true
   | .this => true
@@ -2727,6 +2704,7 @@ def ro : Fn.FE → Bool
   | .typeof a => ro a
   | .val a => ro a
   | .log a => ro a
+  | .cond t a b => ro t && ro a && ro b
   | _ => false
 
 /-- the identifiers of such an expression -/
@@ -2740,6 +2718,7 @@ def idents : Fn.FE → List String
   | .typeof a => idents a
   | .val a => idents a
   | .log a => idents a
+  | .cond t a b => idents t ++ idents a ++ idents b
   | _ => []
 
 /-- otto's class strings agree with the class data (`Function` ⇔ callable data, `Error`, `Arguments`) -/
@@ -2972,6 +2951,88 @@ theorem ro_un (n : Nat) (a e : Fn.FE) (f : Fn.V → Fn.V) (sc : FnM.Scope) (rest
     refine ⟨nm, t1, by rw [h1] <;> rfl, ?_⟩
     rw [h1'] <;> rfl
 
+theorem evalV_cond (n : Nat) (t a b : Fn.FE) :
+    evalV (n+1) (.cond t a b) = (do let tv ← evalV n t; if Fn.truthy tv then evalV n a else evalV n b) := by
+  funext σ
+  have he : FnM.evalE (n+1) (.cond t a b) = (do
+      let test ← FnM.evalE n t
+      let tv ← FnM.resolve test
+      if Fn.truthy tv then do let v ← FnM.resolve (← FnM.evalE n a); pure (FnM.MV.val v)
+      else do let v ← FnM.resolve (← FnM.evalE n b); pure (FnM.MV.val v)) := by rw [FnM.evalE]
+  simp only [evalV, he, bind_run]
+  cases FnM.evalE n t σ with
+  | fuel => rfl
+  | throw t s => rfl
+  | ok mv s =>
+    simp only []
+    cases FnM.resolve mv s with
+    | fuel => rfl
+    | throw t s1 => rfl
+    | ok tv s1 =>
+      simp only []
+      cases Fn.truthy tv with
+      | true =>
+        simp only [if_true, bind_run]
+        cases FnM.evalE n a s1 with
+        | fuel => rfl
+        | throw t s2 => rfl
+        | ok mv2 s2 =>
+          simp only []
+          cases FnM.resolve mv2 s2 with
+          | fuel => rfl
+          | throw t s3 => rfl
+          | ok rv s3 => rfl
+      | false =>
+        simp only [Bool.false_eq_true, if_false, bind_run]
+        cases FnM.evalE n b s1 with
+        | fuel => rfl
+        | throw t s2 => rfl
+        | ok mv2 s2 =>
+          simp only []
+          cases FnM.resolve mv2 s2 with
+          | fuel => rfl
+          | throw t s3 => rfl
+          | ok rv s3 => rfl
+
+theorem spec_cond (n : Nat) (t a b : Fn.FE) (c : Fn.Ctx) (s : Fn.St) :
+    Fn.evalE (n+1) (.cond t a b) c s =
+      match Fn.evalE n t c s with
+      | .ok tv s1 => if Fn.truthy tv then Fn.evalE n a c s1 else Fn.evalE n b c s1
+      | .throw t s1 => .throw t s1
+      | .fuel => .fuel := by
+  rw [Fn.evalE]
+  cases Fn.evalE n t c s <;> rfl
+
+/-- §11.12: the test, then exactly one of the branches, on the state the test left -/
+theorem ro_cond (n : Nat) (t a b : Fn.FE) (sc : FnM.Scope) (rest : List FnM.Scope) (xs : List String)
+    (iht : ∀ σ, ROInv σ xs → σ.scopes = sc :: rest → ROSim n t sc σ)
+    (iha : ∀ σ, ROInv σ xs → σ.scopes = sc :: rest → ROSim n a sc σ)
+    (ihb : ∀ σ, ROInv σ xs → σ.scopes = sc :: rest → ROSim n b sc σ)
+    (σ : FnM.St) (hI : ROInv σ xs) (hsc : σ.scopes = sc :: rest) : ROSim (n+1) (.cond t a b) sc σ := by
+  unfold ROSim
+  rw [evalV_cond, spec_cond]
+  simp only [bind_run]
+  rcases iht σ hI hsc with h | ⟨tv, t1, h1, h1'⟩ | ⟨nm, t1, h1, h1'⟩
+  · left; rw [h]
+  · rw [h1, h1']
+    simp only []
+    cases Fn.truthy tv with
+    | true =>
+      simp only [if_true]
+      rcases iha { σ with trace := t1 } (hI.trace t1) hsc with h | ⟨va, t2, h2, h2'⟩ | ⟨nm, t2, h2, h2'⟩
+      · left; exact h
+      · right; left; exact ⟨va, t2, h2, h2'⟩
+      · right; right; exact ⟨nm, t2, h2, h2'⟩
+    | false =>
+      simp only [Bool.false_eq_true, if_false]
+      rcases ihb { σ with trace := t1 } (hI.trace t1) hsc with h | ⟨vb, t2, h2, h2'⟩ | ⟨nm, t2, h2, h2'⟩
+      · left; exact h
+      · right; left; exact ⟨vb, t2, h2, h2'⟩
+      · right; right; exact ⟨nm, t2, h2, h2'⟩
+  · right; right
+    refine ⟨nm, t1, by rw [h1] <;> rfl, ?_⟩
+    rw [h1'] <;> rfl
+
 theorem spec_add (n : Nat) (a b : Fn.FE) (c : Fn.Ctx) (s : Fn.St) :
     Fn.evalE (n+1) (.add a b) c s =
       match Fn.evalE n a c s with
@@ -3185,6 +3246,42 @@ theorem ro_isVal (n : Nat) (e : Fn.FE) (hro : ro e = true) (hnv : ∀ x, e ≠ .
             | fuel => simp
             | throw t s => simp
             | ok tk s3 => simp only [modifySt_run, pure_run, FnM.R.ok.injEq]; intro h; exact ⟨_, h.1.symm⟩
+      | cond t a b =>
+        simp only [FnM.evalE, bind_run] at hr
+        revert hr
+        cases FnM.evalE n t σ with
+        | fuel => simp
+        | throw t s => simp
+        | ok m1 s1 =>
+          simp only []
+          cases FnM.resolve m1 s1 with
+          | fuel => simp
+          | throw t s => simp
+          | ok tv s2 =>
+            simp only []
+            cases Fn.truthy tv with
+            | true =>
+              simp only [if_true, bind_run]
+              cases FnM.evalE n a s2 with
+              | fuel => simp
+              | throw t s => simp
+              | ok m2 s3 =>
+                simp only []
+                cases FnM.resolve m2 s3 with
+                | fuel => simp
+                | throw t s => simp
+                | ok rv s4 => simp only [pure_run, FnM.R.ok.injEq]; intro h; exact ⟨_, h.1.symm⟩
+            | false =>
+              simp only [Bool.false_eq_true, if_false, bind_run]
+              cases FnM.evalE n b s2 with
+              | fuel => simp
+              | throw t s => simp
+              | ok m2 s3 =>
+                simp only []
+                cases FnM.resolve m2 s3 with
+                | fuel => simp
+                | throw t s => simp
+                | ok rv s4 => simp only [pure_run, FnM.R.ok.injEq]; intro h; exact ⟨_, h.1.symm⟩
       | _ => simp [ro] at hro
 
 /-- GetValue through the reference of a resolved identifier: a value, the state untouched, the value ES5 reads -/
@@ -3387,6 +3484,12 @@ theorem expr_refines_partial (sc : FnM.Scope) (rest : List FnM.Scope) (xs : List
     | log a =>
       simp only [ro] at hro
       exact ro_log n a sc rest xs (fun σ' => ih a hro (fun x hx => hid x (by simp [idents, hx])) σ') σ hI hsc
+    | cond t a b =>
+      simp only [ro, Bool.and_eq_true] at hro
+      exact ro_cond n t a b sc rest xs
+        (fun σ' => ih t hro.1.1 (fun x hx => hid x (by simp [idents, hx])) σ')
+        (fun σ' => ih a hro.1.2 (fun x hx => hid x (by simp [idents, hx])) σ')
+        (fun σ' => ih b hro.2 (fun x hx => hid x (by simp [idents, hx])) σ') σ hI hsc
     | _ => simp [ro] at hro
 
 end OttoVerif.C01.FnRefine
